@@ -104,8 +104,9 @@ func mutateAccounts(fsys apkfs.FullFS, ic *types.ImageConfiguration) error {
 				continue
 			}
 			// Create a version of the user's home directory rooted at our
-			// working directory.
-			targetHomedir := ue.HomeDir
+			// working directory. Clean it so that a trailing slash does not
+			// make filepath.Dir/Base address a directory nested inside the home.
+			targetHomedir := filepath.Clean(ue.HomeDir)
 
 			// Make sure a directory exists with the path we expect.
 			if fi, err := fsys.Stat(targetHomedir); err == nil {
